@@ -205,7 +205,34 @@ def _make_result_files(workdir):
         path = os.path.join(workdir, "res%d.zip" % k)
         file_interface.save_res_file(path, r)
         files.append((path, r))
+    # unusual but valid inputs:
+    #  3: a file name with glob metacharacters next to a sibling it would
+    #     match as a pattern ("res[1].zip" vs "res1.zip")
+    #  4: a stored statistic that is NaN
+    #  5: a different set of statistics (no median, an extra percentile)
+    import copy
+    for k, (fname, edit) in enumerate((
+            ("res[1].zip", lambda st: None),
+            ("res4.zip", lambda st: st.__setitem__("max", float("nan"))),
+            ("res5.zip", lambda st: (st.pop("median"),
+                                     st.__setitem__("p95", 0.75)))), 3):
+        r = copy.deepcopy(files[k - 3][1])
+        r.info["est_name"] = "dir%d/est_%d.tum" % (k, k)
+        for name in list(r.stats):
+            r.stats[name] = r.stats[name] + 0.001 * k
+        edit(r.stats)
+        path = os.path.join(workdir, fname)
+        file_interface.save_res_file(path, r)
+        files.append((path, r))
     return files
+
+
+def _cell(x):
+    return float("nan") if x in ("", None) else float(x)
+
+
+def _same(a, b):
+    return (a != a and b != b) or abs(a - b) <= 1e-12 * max(1.0, abs(b))
 
 
 def run_res_case(workdir, files, sel, use_filenames, merge, transpose=True):
@@ -232,6 +259,14 @@ def _run_res_case(workdir, files, sel, use_filenames, merge, transpose):
     res = cli.run_cli("res", argv)
     msgs = []
     results = [files[i][1] for i in sel]
+    if merge and len({frozenset(r.stats) for r in results}) > 1:
+        if res.ok:
+            return ["results with different statistics were merged"], \
+                "merge-refused"
+        if res.exc is not None and not cli.is_evo_refusal(res):
+            return ["evo_res --merge crashed instead of refusing: %s %s" %
+                    (type(res.exc).__name__, res.exc)], "merge-refused"
+        return [], "merge-refused"
     if merge:
         labels = [os.path.basename(results[0].info["est_name"])]
         exp = [{k: sum(r.stats[k] for r in results) / len(results)
@@ -263,10 +298,14 @@ def _run_res_case(workdir, files, sel, use_filenames, merge, transpose):
         return msgs, "table"
     for lab, st in zip(labels, exp):
         for k, v in st.items():
-            if k not in table[lab] or abs(float(table[lab][k]) - v) > \
-                    1e-12 * max(1.0, abs(v)):
+            if k not in table[lab] or not _same(_cell(table[lab][k]), v):
                 msgs.append("table[%s][%s] = %s, stored statistic %r" %
                             (lab, k, table[lab].get(k), v))
+        for k, cell in table[lab].items():
+            if k not in st and cell not in ("", None) and \
+                    _cell(cell) == _cell(cell):
+                msgs.append("table[%s][%s] = %s although that file stores "
+                            "no such statistic" % (lab, k, cell))
     return msgs, "table-merged" if merge else "table"
 
 
@@ -303,7 +342,7 @@ def res_part(ctx):
     files = _make_result_files(ctx.workdir)
     acc.merge(iterables_part(files))
     sels = [s for n in (1, 2, 3)
-            for s in itertools.permutations(range(3), n)]
+            for s in itertools.permutations(range(len(files)), n)]
     for sel in sels:
         for use_filenames in (False, True):
             # (table_export_transpose is bound as a default argument when
@@ -346,7 +385,9 @@ def run(ctx):
         "sets x array lengths %s for one or two arrays x both key insertion "
         "orders + one missing statistic key + one extra array key); all "
         "chains of 4%s over %d types; evo_res --save_table for every ordered "
-        "selection of 1..3 of 3 result files x use_filenames x merge. "
+        "selection of 1..3 of 6 result files (three plain ones, a file name "
+        "with glob metacharacters next to the sibling it would match, a NaN "
+        "statistic, a different set of statistics) x use_filenames x merge. "
         "non-trivial = lists mixing key insertion orders or needing the "
         "append strategy" % (ntypes, list(lengths),
                              " and 6" if ctx.thorough else "", nchain))
